@@ -61,6 +61,15 @@ class Driver:
 
         res = self.res
         self.n += 1
+        if self.n % 3 == 0 and isinstance(d, (dict, list)):
+            # keys of the form __name__ are never printed, whatever their name or value
+            objs = list(edits.objects(d))
+            for path, o in self.r.sample(objs, min(len(objs), 2)):
+                try:
+                    o[self.r.choice(["__note__", "__x__", "__extra__", "__id__"])] = self.r.choice([1, "hidden text", ["a", 1], {"k": "v"}])
+                    res.count("hidden_keys_added")
+                except Exception:
+                    pass
         via = ("dumps", "printer", "dump", "save")[self.n % 4]
         PC.take()
         from .C16 import flip_quote
@@ -157,6 +166,42 @@ def _run(ctx, drv):
             for mk in (edits.mkdict, dict):
                 d = expect.build_doc([node], mk)
                 drv.emit(d, drv.opts(), "vocab", extra={"slot": f"{o}.{k}:{a.kind}"})
+    # ---- (1b) the same string under different keywords: an enumerated word of one keyword is free text for another; the lexical
+    #      class must follow the keyword, in either print order, within one dumps call and on a reused printer
+    hosts = [("class", "text"), ("class", "expression"), ("cluster", "group"), ("layer", "filter"), ("label", "text")]
+    hosts = [(o, k) for o, k in hosts if vocab.prop(o, k) is not None]
+    pi = 0
+    for o in vocab.object_types():
+        for k, p in vocab.props(o).items():
+            if len(p.alts) < 2 or k == "projection":
+                continue
+            for a in p.alts:
+                if a.kind != "enum":
+                    continue
+                for m in a.info["members"]:
+                    if not isinstance(m, str) or (o, k) in gen.QUOTED_ENUM or (o, k, m.lower()) in gen.QUOTED_ENUM_MEMBERS:
+                        continue
+                    pi += 1
+                    if not ctx.mine(pi):
+                        continue
+                    ho, hk = hosts[pi % len(hosts)]
+                    if m.lower() in vocab.prop(ho, hk).enum_members_lower():
+                        continue
+                    for word in (m, m.upper()):
+                        enum_obj = edits.mkdict()
+                        enum_obj["__type__"] = o
+                        for req in vocab.required(o):
+                            enum_obj[req] = expect.item_value(gen.make_item(vocab.prop(o, req), gen.writable_alts(vocab.prop(o, req))[0], r), edits.mkdict)
+                        enum_obj[k] = word
+                        text_obj = edits.mkdict()
+                        text_obj["__type__"] = ho
+                        for req in vocab.required(ho):
+                            text_obj[req] = expect.item_value(gen.make_item(vocab.prop(ho, req), gen.writable_alts(vocab.prop(ho, req))[0], r), edits.mkdict)
+                        text_obj[hk] = word
+                        for order in ([enum_obj, text_obj], [text_obj, enum_obj]):
+                            res.count("same_string_two_keywords")
+                            drv.emit(copy.deepcopy(order), dict(drv.opts(), newlinechar="\n"), "same-string",
+                                     extra={"slot": f"{o}.{k}:enum={word} + {ho}.{hk}:string"})
     # ---- (2) generated dictionaries, loaded documents, corpus
     n = ctx.n(1200, 14000)
     for j in range(n):
